@@ -38,6 +38,15 @@ CLAIMS = {
     "C13": ("proof", "must-pass-through on the CFG of both loaders: from each arm of the LoadedChanges match every Ok exit passes apply_changes* over that arm's payload (and the first chunk's changes); edge rule for on_partial_load",
             "Proves that neither loader can return Ok while dropping a collection of completely parsed changes (first chunk, Complete(c), Partial{loaded}) and that an Ok after a failed chunk requires on_partial_load != Error.",
             "Decides the no-drop clause; chunk-boundary arithmetic and panic-freedom are not decided. The rule fired on the pinned tree (OnPartialLoad::Ignore dropped the first chunk's changes and all chunks loaded before the failure): repaired by fix: be08eb1f0.", "DESIGN.md §3 C13"),
+    "C12": ("proof", "must-pass-through (dominance) of ensure_transaction_closed before every history-sensitive use of self.doc in AutoCommit, who-may-construct SyncWrapper, provenance and ordering of the save cursor, shape of Automerge::save_after",
+            "Enumerates every call in AutoCommit/SyncWrapper that hands self.doc to a history-sensitive Automerge method and proves ensure_transaction_closed dominates it (a pending transaction's ops are not in the change graph, so a save taken with it open omits them); proves save_incremental saves after self.save_cursor and only then advances the cursor to doc.get_heads(), and that save_after emits raw_bytes of get_changes(heads).",
+            "Decides the closure discipline and cursor handling, not that the written chunks reload to an equal document (C11/C18) nor idempotence of reloading (C01). One reviewed exception (Transactable::base_heads, by specification the pre-transaction heads) in tables/r10_close.tsv.", "DESIGN.md §3 C12"),
+    "C04": ("proof", "who-may-write rule for the two heads sets, sibling agreement of their updaters, call-chain check, provenance of start_op/deps of a local change and field identity between TransactionArgs and TransactionInner",
+            "Proves that Automerge.deps and ChangeGraph.heads are written only by their constructors and the two updaters, that both updaters remove change.deps() and then unconditionally insert change.hash(), that update_history/add_changes invoke them, and that a local change gets start_op = max_op()+1 and deps = heads argument or current heads plus the actor's previous change.",
+            "Thin: decides the maintenance structure, not that the heads set is correct for every history nor the graph algorithms; seq is decided under C38.", "DESIGN.md §3 C04"),
+    "C10": ("proof", "provenance of Header.hash and of the digest inside chunk::hash (argument order of the SHA-256 updates), accessor-chain return tables, who-may-construct ChangeHash, closure discipline of AutoCommit's history getters",
+            "Proves the content-addressing clause: Change::hash() reads Header.hash, every Header gets its hash from chunk::hash over the data whose length it records, chunk::hash feeds SHA-256 with type byte and LEB128 length before the data and returns the digest, no other code fabricates a ChangeHash except the two parsers, and AutoCommit closes the pending transaction before returning history.",
+            "Decides the hash clause only; byte-identity of changes rebuilt from the op set and exactness/order of get_changes(have) are runtime-valued and not decided.", "DESIGN.md §3 C10"),
 }
 
 NA_PLANNED = "rule designed in DESIGN.md §3 but its checker is not built in this revision, so nothing is claimed yet"
